@@ -99,6 +99,9 @@ PATTERN_TEXTS = [
     "a = b = c + 1", "2x - 3 = 5", "(a + b) + c = d", "x - (2 + y) = 3", "-(x + 1) = 2", "2x = 4 = y",
     "3x / 15 + 3 = 3", "x + y = 2 + z", "2x * 3 = 6", "3(2x) = 6", "5 ^ (2x) = 25", "x = 2 + 3", "4 = x + -2",
     "2x + 0 = 4", "x * 2 = 4", "-2x = 4", "0.5x = 4", "x + y + z = 0", "2 + x = y - 1", "2x = 4y", "x = y",
+    # constants at the edge of the number formatter (tiny / many digits), also as folding results
+    "0.01 * 0.002 + x", "x * 0.0001 * 0.1", "0.00002x + 1", "x - 0.000075", "0.001 * 0.001 * x", "1234567.5 * 8 + x",
+    "x / 0.00001", "0.0001x + 0.0002x", "100000 * 100000 * x",
 ]
 
 def template_texts():
